@@ -56,7 +56,7 @@ func vwNewWorld() *vwWorld {
 		w.ws[name] = wr
 		go func() {
 			for n := range wr.cmd {
-				got, err := w.sc.Write(vwBuf[:n*vwUnit])
+				got, err := vwSafeWrite(w.sc, vwBuf[:n*vwUnit])
 				r := "ok"
 				switch {
 				case err == nil && n == 0 && got == 0:
@@ -77,6 +77,15 @@ func vwNewWorld() *vwWorld {
 		}()
 	}
 	return w
+}
+
+func vwSafeWrite(sc *SCTPConn, b []byte) (n int, err error) {
+	defer func() {
+		if r := recover(); r != nil {
+			n, err = 0, fmt.Errorf("panic in SCTPConn.Write: %v", r)
+		}
+	}()
+	return sc.Write(b)
 }
 
 func (w *vwWorld) project() map[string]any {
@@ -188,7 +197,7 @@ func TestVerifWriteReplay(t *testing.T) {
 	if writeMaxBufferedAmount != limitUnits*vwUnit {
 		t.Fatalf("writeMaxBufferedAmount = %d: the model's unit (64 KiB, limit 4) no longer matches", writeMaxBufferedAmount)
 	}
-	var nb, ns, nm, nprop, nblocked atomic.Int64
+	var nb, ns, nm, nprop, nshape, nblocked atomic.Int64
 	jobs := make(chan []byte, 256)
 	var wg sync.WaitGroup
 	for i := 0; i < workers; i++ {
@@ -228,10 +237,10 @@ func TestVerifWriteReplay(t *testing.T) {
 					if maxAmt > (limitUnits+maxWriteUnits)*vwUnit {
 						prop = "BufferedBounded"
 					}
+					if sawBlocked && attempt == 0 {
+						nblocked.Add(1) // counted from the specification's side: a writer is held back in this behaviour
+					}
 					if mis == nil && prop == "" {
-						if sawBlocked && attempt == 0 {
-							nblocked.Add(1)
-						}
 						break
 					}
 					if attempt == 0 {
@@ -243,9 +252,10 @@ func TestVerifWriteReplay(t *testing.T) {
 					mis["prop"], mis["maxAmt"] = prop, maxAmt
 					nm.Add(1)
 					if prop != "" {
-						nprop.Add(1)
-					}
-					if nm.Load() <= 200 {
+						if nprop.Add(1) <= 100 {
+							out.Emit(mis)
+						}
+					} else if nshape.Add(1) <= 100 {
 						out.Emit(mis)
 					}
 				}
@@ -433,6 +443,9 @@ func TestVerifWatchdog(t *testing.T) {
 		if r.viol == "" && !r.differ {
 			nmatch++
 			continue
+		}
+		if nviol >= 25 {
+			continue // enough confirmed violations; the remaining candidates are not pursued
 		}
 		nretry++
 		r2 := play(r.job, r.honor)
